@@ -122,7 +122,24 @@ Ltac use_eqs :=
 
 (* ---- the common opening of an invariance proof: all leaves of one step, simplified *)
 Ltac clean_eqs :=
-  repeat match goal with F : _ ?s0 = _ ?s |- _ => rewrite F in * end; subst; use_eqs;
+  repeat match goal with
+  | F : sess ?a = sess ?b |- _ => rewrite F in *; clear F
+  | F : g ?a = g ?b |- _ => rewrite F in *; clear F
+  | F : k_cfg (k ?a) = k_cfg (k ?b) |- _ => rewrite F in *; clear F
+  | F : k_api (k ?a) = k_api (k ?b) |- _ => rewrite F in *; clear F
+  | F : k_pending (k ?a) = k_pending (k ?b) |- _ => rewrite F in *; clear F
+  | F : k_returning (k ?a) = k_returning (k ?b) |- _ => rewrite F in *; clear F
+  | F : k_ppc (k ?a) = k_ppc (k ?b) |- _ => rewrite F in *; clear F
+  | F : k_dpc (k ?a) = k_dpc (k ?b) |- _ => rewrite F in *; clear F
+  | F : k_kpc (k ?a) = k_kpc (k ?b) |- _ => rewrite F in *; clear F
+  | F : k_started (k ?a) = k_started (k ?b) |- _ => rewrite F in *; clear F
+  end; subst;
+  repeat match goal with
+  | E : context [k (set_k ?a ?b)] |- _ =>
+    progress cbn [k set_k k_cs k_cfg k_api k_pending k_returning k_ppc k_dpc k_kpc k_started
+                  k_set_pending k_set_cfg k_set_api k_set_returning] in E
+  end;
+  use_eqs;
   repeat match goal with
   | E : DCu _ _ _ = DCu _ _ _ |- _ => injection E as ? ? ?; subst
   | E : DCb _ = DCb _ |- _ => injection E as ?; subst
